@@ -93,6 +93,23 @@ def build_groups(run):
         classes = [n for n, d in env["defs"].items() if d[0] == "class"]
         wid = env.setdefault("wid", itertools.count(1))
         roots, meta = [], []
+        if gi == 0:
+            # deterministic sweep: every qualifier over every short wrapper chain, at the root, for one base of each
+            # kind of leaf / composite (a Literal and an enum included: predicates that look THROUGH a qualifier
+            # decide differently for them)
+            env["defs"].setdefault("EnA", ("enum", [("RED", "1"), ("BLUE", "2")]))
+            env["defs"].setdefault("Lit", ("literal", ["1", "'a'", "'b'"]))
+            bases = [("leaf", "int"), ("leaf", "Lit"), ("leaf", "EnA"), ("leaf", "date"),
+                     ("union", "Optional", [("leaf", "int"), ("none",)]), ("seq", "KList", "list[{}]", ("leaf", "Lit")),
+                     ("name", classes[0])]
+            for base in bases:
+                for q in ("final", "classvar"):
+                    for chain in ((), ("newtype",), ("alias",), ("newtype", "alias"), ("alias", "newtype")):
+                        w = base
+                        for k in chain:
+                            w = (k, next(wid), w)
+                        roots.append(base); meta.append(("root-qualifier", "plain", len(roots)))
+                        roots.append((q, w)); meta.append(("root-qualifier", "wrapped", len(roots) - 2))
         for _ in range(3):
             base = coregen.gen_ty(rng, env, 2, wrap=0, classes=classes)
             for tag, w in variants(rng, env, base, wid, classes):
